@@ -42,12 +42,11 @@
 (***************************************************************************)
 EXTENDS Naturals, Sequences, FiniteSets, TLC
 
-CONSTANTS Keys, VTypes, Vals, Elems,
+CONSTANTS WCols,   \* wide columns; the replay uses W1 (Prefixed) and W2 (Suffixed)
+          SCols,   \* key-of-set columns S1, S2
+          Keys, VTypes, Vals, Elems,
           MaxBatches, MaxBufs, MaxIters, MaxOps,
           AtomicCommit, SnapshotScan, Alias
-
-WCols == {"W1", "W2"}     \* W1: DiscriminantEncoding::Prefixed, W2: Suffixed
-SCols == {"S1", "S2"}
 
 Cells == WCols \X Keys \X VTypes
 SetIds == SCols \X Keys
@@ -70,7 +69,7 @@ vars == <<wide, sets, batch, sbuf, iters, log, nops>>
 
 FreeBatch == [st |-> "free", ops |-> <<>>, applied |-> 0]
 FreeBuf == [st |-> "free", ops |-> <<>>]
-FreeIter == [st |-> "free", c |-> "S1", key |-> CHOOSE k \in Keys : TRUE,
+FreeIter == [st |-> "free", c |-> "-", key |-> "-",
              snap |-> {}, must |-> {}, may |-> {}]
 
 (* Physical slot of a logical cell (identity unless the cell is aliased). *)
@@ -94,6 +93,11 @@ RECURSIVE FoldWide(_, _), FoldSets(_, _), Flat(_)
 FoldWide(w, ops) == IF ops = <<>> THEN w ELSE FoldWide(ApplyWide(w, Head(ops)), Tail(ops))
 FoldSets(s, ops) == IF ops = <<>> THEN s ELSE FoldSets(ApplySets(s, Head(ops)), Tail(ops))
 Flat(l) == IF l = <<>> THEN <<>> ELSE Head(l) \o Flat(Tail(l))
+
+(* Example for KvStoreAsIsAlias.cfg (a cfg file cannot spell tuples): the  *)
+(* suffixed pair found by kv_replay for raw byte keys, key [05] with a    *)
+(* two-byte discriminant vs key [05 81] with a one-byte discriminant.      *)
+AliasDemo == {<< <<"W1", "K1", "V2">>, <<"W1", "K2", "V1">> >>}
 
 (* What the API returns. *)
 GetResult(c, key, vt) == wide[Canon(<<c, key, vt>>)]
@@ -156,6 +160,10 @@ TrackIters(newsets) ==
                               !.may = @ \cup newsets[<<iters[i].c, iters[i].key>>]]
         ELSE iters[i]]
 
+(* An empty batch leaves no trace (keeps the history, hence the state     *)
+(* space, finite).                                                         *)
+Logged(ops) == IF ops = <<>> THEN log ELSE Append(log, ops)
+
 (* WriteBatch::commit as the contract has it: one step. *)
 Commit(b) ==
     /\ AtomicCommit
@@ -163,7 +171,7 @@ Commit(b) ==
     /\ wide' = FoldWide(wide, batch[b].ops)
     /\ sets' = FoldSets(sets, batch[b].ops)
     /\ iters' = TrackIters(sets')
-    /\ log' = Append(log, batch[b].ops)
+    /\ log' = Logged(batch[b].ops)
     /\ batch' = [batch EXCEPT ![b] = FreeBatch]
     /\ UNCHANGED <<sbuf, nops>>
 
@@ -186,7 +194,7 @@ CommitStep(b) ==
             /\ iters' = TrackIters(sets')
             /\ batch' = [batch EXCEPT ![b].applied = @ + 1]
             /\ UNCHANGED log
-       ELSE /\ log' = Append(log, batch[b].ops)
+       ELSE /\ log' = Logged(batch[b].ops)
             /\ batch' = [batch EXCEPT ![b] = FreeBatch]
             /\ UNCHANGED <<wide, sets, iters>>
     /\ UNCHANGED <<sbuf, nops>>
